@@ -295,100 +295,114 @@ Fixpoint map_insert {V} (k : str) (v : V) (m : list (str * V)) : list (str * V) 
                      else if str_ltb k k' then (k, v) :: m else (k', v') :: map_insert k v t
   end.
 
+(** the body of ParsedValue::new, with the recursive call as a parameter [new] *)
+Section Step.
+Variable new : str -> res pv.
+
+(* parse_foreign_key_args_inner *)
+Definition args_inner (before : str) : res (list (str * pv)) :=
+  match json_args before with
+  | Ok l =>
+      fold_left (fun acc '(k, a) =>
+        bind acc (fun m =>
+        bind (match a with JString s => new s | JLit l => Ok (PLit l) end) (fun v =>
+        Ok (map_insert (s_var_ ++ trim k) v m)))) l (Ok [])
+  | Err _ => Err E_InvalidForeignKeyArgs
+  | Panic p => Panic p | OutOfFuel => OutOfFuel | Unmodelled => Unmodelled
+  end.
+
+(* parse_foreign_key_args *)
+Definition fk_args (s : str) : res (list (str * pv) * str) :=
+  bind (brace_scan s 0 0) (fun oi =>
+  match (if fixed then oi else Some (match oi with Some i => i | None => 0%nat end)) with
+  | None => Err E_UnexpectedToken
+  | Some index =>
+    match take_bytes s (index + 1), drop_bytes s (index + 1) with
+    | Some before, Some after =>
+        match strip_prefix [c_rp] (trim_start after) with
+        | None => Err E_UnexpectedToken
+        | Some after' => bind (args_inner before) (fun a => Ok (a, after'))
+        end
+    | _, _ => Panic P_split_at
+    end
+  end).
+
+Definition find_foreign_key (value : str) : res (option pv) :=
+  match split_once s_fk value with
+  | None => Ok None
+  | Some (before, rest) =>
+    match find_idx (fun c => (c =? c_comma) || (c =? c_rp)) rest with
+    | None => Ok None
+    | Some ns =>
+      match take_bytes rest ns, drop_bytes rest ns with
+      | Some keypath, Some (sep :: after) =>
+        bind (parse_key_path keypath) (fun tgt =>
+        match tgt with
+        | None => Ok None
+        | Some (nsp, path) =>
+          bind (if sep =? c_comma then fk_args after else Ok ([], after)) (fun '(args, after') =>
+          bind (new before) (fun b =>
+          bind (new after') (fun a =>
+          Ok (Some (PBloc [b; PForeign nsp path args; a])))))
+        end)
+      | _, _ => Ok None
+      end
+    end
+  end.
+
+Definition find_component (value : str) : res (option pv) :=
+  bind (find_valid_component (S (length value)) value 0) (fun r =>
+  match r with
+  | None => Ok None
+  | Some (k, before, between, after) =>
+    bind (new before) (fun b => bind (new between) (fun m => bind (new after) (fun a =>
+    Ok (Some (PBloc [b; PComp k m; a])))))
+  end).
+
+Definition find_variable (value : str) : res (option pv) :=
+  match split_once s_open_var value with
+  | None => Ok None
+  | Some (before, rest) =>
+    match split_once s_close_var rest with
+    | None => Ok None
+    | Some (ident0, after) =>
+      let ident := trim ident0 in
+      bind (new before) (fun b => bind (new after) (fun a =>
+      match split_once_c c_comma ident with
+      | Some (id, f) =>
+          bind (parse_formatter f) (fun fm =>
+          bind (key_new (s_var_ ++ trim id)) (fun k =>
+          match k with None => Ok None | Some k' => Ok (Some (PBloc [b; PVar k' fm; a])) end))
+      | None =>
+          bind (key_new (s_var_ ++ ident)) (fun k =>
+          match k with None => Ok None | Some k' => Ok (Some (PBloc [b; PVar k' FNone; a])) end)
+      end))
+    end
+  end.
+
+(** find_map over [find_foreign_key, find_component, find_variable], else a literal *)
+Definition parse_step (value : str) : res pv :=
+  bind (find_foreign_key value) (fun fk =>
+  match fk with
+  | Some v => Ok v
+  | None =>
+    bind (find_component value) (fun comp =>
+    match comp with
+    | Some v => Ok v
+    | None =>
+      bind (find_variable value) (fun var =>
+      match var with
+      | Some v => Ok v
+      | None => Ok (PLit (LStr value))
+      end)
+    end)
+  end).
+End Step.
+
 Fixpoint parse (fuel : nat) (value : str) : res pv :=
   match fuel with
   | O => OutOfFuel
-  | S fuel' =>
-    let new := parse fuel' in
-    (* parse_foreign_key_args_inner *)
-    let args_inner (before : str) : res (list (str * pv)) :=
-      match json_args before with
-      | Ok l =>
-          fold_left (fun acc '(k, a) =>
-            bind acc (fun m =>
-            bind (match a with JString s => new s | JLit l => Ok (PLit l) end) (fun v =>
-            Ok (map_insert (s_var_ ++ trim k) v m)))) l (Ok [])
-      | Err _ => Err E_InvalidForeignKeyArgs
-      | Panic p => Panic p | OutOfFuel => OutOfFuel | Unmodelled => Unmodelled
-      end in
-    let fk_args (s : str) : res (list (str * pv) * str) :=
-      bind (brace_scan s 0 0) (fun oi =>
-      match (if fixed then oi else Some (match oi with Some i => i | None => 0%nat end)) with
-      | None => Err E_UnexpectedToken
-      | Some index =>
-        match take_bytes s (index + 1), drop_bytes s (index + 1) with
-        | Some before, Some after =>
-            match strip_prefix [c_rp] (trim_start after) with
-            | None => Err E_UnexpectedToken
-            | Some after' => bind (args_inner before) (fun a => Ok (a, after'))
-            end
-        | _, _ => Panic P_split_at
-        end
-      end) in
-    (* find_foreign_key *)
-    let fk : res (option pv) :=
-      match split_once s_fk value with
-      | None => Ok None
-      | Some (before, rest) =>
-        match find_idx (fun c => (c =? c_comma) || (c =? c_rp)) rest with
-        | None => Ok None
-        | Some ns =>
-          match take_bytes rest ns, drop_bytes rest ns with
-          | Some keypath, Some (sep :: after) =>
-            bind (parse_key_path keypath) (fun tgt =>
-            match tgt with
-            | None => Ok None
-            | Some (nsp, path) =>
-              bind (if sep =? c_comma then fk_args after else Ok ([], after)) (fun '(args, after') =>
-              bind (new before) (fun b =>
-              bind (new after') (fun a =>
-              Ok (Some (PBloc [b; PForeign nsp path args; a])))))
-            end)
-          | _, _ => Ok None
-          end
-        end
-      end in
-    bind fk (fun fk =>
-    match fk with
-    | Some v => Ok v
-    | None =>
-      (* find_component *)
-      bind (bind (find_valid_component (S (length value)) value 0) (fun r =>
-        match r with
-        | None => Ok None
-        | Some (k, before, between, after) =>
-          bind (new before) (fun b => bind (new between) (fun m => bind (new after) (fun a =>
-          Ok (Some (PBloc [b; PComp k m; a])))))
-        end)) (fun comp =>
-      match comp with
-      | Some v => Ok v
-      | None =>
-        (* find_variable *)
-        bind (match split_once s_open_var value with
-          | None => Ok None
-          | Some (before, rest) =>
-            match split_once s_close_var rest with
-            | None => Ok None
-            | Some (ident0, after) =>
-              let ident := trim ident0 in
-              bind (new before) (fun b => bind (new after) (fun a =>
-              match split_once_c c_comma ident with
-              | Some (id, f) =>
-                  bind (parse_formatter f) (fun fm =>
-                  bind (key_new (s_var_ ++ trim id)) (fun k =>
-                  match k with None => Ok None | Some k' => Ok (Some (PBloc [b; PVar k' fm; a])) end))
-              | None =>
-                  bind (key_new (s_var_ ++ ident)) (fun k =>
-                  match k with None => Ok None | Some k' => Ok (Some (PBloc [b; PVar k' FNone; a])) end)
-              end))
-            end
-          end) (fun var =>
-        match var with
-        | Some v => Ok v
-        | None => Ok (PLit (LStr value))
-        end)
-      end)
-    end)
+  | S fuel' => parse_step (parse fuel') value
   end.
 
 Definition parse_top (s : str) : res pv := parse (S (S (length s))) s.
